@@ -5,6 +5,12 @@ C05 — Fragments carry correctly interpolated, finite depth and attributes.
   `Retro.Props.C05.Tri`  : triangle level — for every triangle of non-zero area each fragment sits at
                            its pixel centre (`trifill_frag_centre`) and every division that feeds an
                            emitted fragment has a non-zero divisor (`trifill_divisors_ne_zero`)
+  `Retro.Props.C05.Poison`: NaN/∞-freedom as a theorem — the same model run at `Poison K` (a value, or `bad` =
+                           "a division by zero happened upstream") on lifted input is the lift of the exact
+                           run (`scan_poison_free`, `trifill_poison_free`), reciprocal depth stays positive
+                           (`frag_z_pos`), hence the fragments after `z_div` are finite (`trifill_frags_finite`);
+                           the pre-fix `scan` poisons a fragment (`scanOld_poisons`)
 -/
 import Retro.Props.C05.Frag
 import Retro.Props.C05.Tri
+import Retro.Props.C05.Poison
